@@ -175,7 +175,7 @@ class C13(Check):
     rule = (
         "cases: (a) histories of 0..12 (quick) / 0..30 (thorough) generated request documents (C01-C04 corpus: valid, failing, batch, "
         "rejected, non-JSON) served by one dispatcher, followed by a probe request whose response document and codes are compared with the "
-        "probe served by a fresh dispatcher built from the same spec - also for same-named functions with different annotations that share one PydanticValidator instance and for methods with different per-method arguments that share one JsonSchemaValidator instance; (b) retention: N in {1, 10, 1000} dispatches, a fresh weak-"
+        "probe served by a fresh dispatcher built from the same spec - also for same-named functions with different annotations and for functions whose signatures compare equal although their defaults differ in type (1 / True / 1.0) that share one PydanticValidator instance and for methods with different per-method arguments that share one JsonSchemaValidator instance; (b) retention: N in {1, 10, 1000} dispatches, a fresh weak-"
         "referenceable context object each, for function methods, class based view methods with and without a constructor context, a context-only method called without params and a context-free method x validator {base, jsonschema, pydantic} x "
         "sync / async x request kinds (ok, notification, raises, does not bind / validate, unknown, rejected, batch, non-JSON): after gc no "
         "context object and no view instance is alive; (b2) growth: three passes of N in {100, 200, 1000} requests whose client-supplied text never repeats (unknown and dotted method names, argument values, "
@@ -215,8 +215,8 @@ class C13(Check):
             st.sampled_from(['sync', 'async']), st.sampled_from(['base', 'jsonschema', 'pydantic']), st.sampled_from(['func', 'view', 'view-noctx']),
             st.sampled_from([1, 10, 10, 30]), st.lists(st.sampled_from(sorted(RETENTION_REQUESTS)), min_size=1, max_size=4),
         )
-        vcall = st.tuples(st.sampled_from(['users.get', 'posts.get', 'users.get_many', 'ip.strict', 'ip.lax', 'ip.lax']),
-                          st.sampled_from([[1], ['1'], ['x'], [[1, 2]], [None], [], [1.5], [{'a': 1}], ['1.2.3.4'], ['not-an-ip']]))
+        vcall = st.tuples(st.sampled_from(['users.get', 'posts.get', 'users.get_many', 'ip.strict', 'ip.lax', 'ip.lax', 'pick.int', 'pick.bool', 'pick.float']),
+                          st.sampled_from([[1], ['1'], ['x'], [[1, 2]], [None], [], [], [1.5], [{'a': 1}], ['1.2.3.4'], ['not-an-ip']]))
         vhistory = st.builds(lambda d, h, p, c: {'kind': 'vhistory', 'dispatcher': d, 'history': [list(x) for x in h], 'probe': list(p), 'coerce': c},
                              st.sampled_from(['sync', 'async']), st.lists(vcall, max_size=6), vcall, st.booleans())
         growth = st.builds(
@@ -267,6 +267,9 @@ class C13(Check):
              'probe': t(call('echo', [5, 6]))},
             {'kind': 'history', 'dispatcher': 'async', 'behaviours': {},
              'history': [t(call('v.get', [1])), t(call('with_ctx', [1])), t(call('echo', {'zz': 1}))], 'probe': t(call('v.get', [9]))},
+            {'kind': 'vhistory', 'dispatcher': 'sync', 'coerce': True, 'history': [['pick.int', []], ['pick.float', [2]]], 'probe': ['pick.bool', []]},
+            {'kind': 'vhistory', 'dispatcher': 'async', 'coerce': True, 'history': [['pick.bool', []]], 'probe': ['pick.float', []]},
+            {'kind': 'vhistory', 'dispatcher': 'sync', 'coerce': False, 'history': [['pick.float', []], ['pick.bool', []]], 'probe': ['pick.int', []]},
             {'kind': 'threads', 'dispatcher': 'sync', 'threads': 4, 'rounds': 3, 'corpus': 'std'},
             {'kind': 'threads', 'dispatcher': 'async', 'threads': 2, 'rounds': 2, 'corpus': 'std'},
         ]
@@ -327,6 +330,15 @@ class C13(Check):
         d.add(make(int, 'users'), 'users.get')
         d.add(make(str, 'posts'), 'posts.get')
         d.add(make(L[int], 'many'), 'users.get_many')
+
+        # functions whose signatures compare equal although their defaults differ (1 == True == 1.0 in python)
+        def make_default(default, tag):
+            ns = {'D': default}
+            exec(("async " if is_async else "") + f"def pick(value=D):\n    return ['{tag}', type(value).__name__, value]\n", ns)
+            return v.validate(ns['pick'])
+        d.add(make_default(1, 'int'), 'pick.int')
+        d.add(make_default(True, 'bool'), 'pick.bool')
+        d.add(make_default(1.0, 'float'), 'pick.float')
         # two methods sharing one JsonSchemaValidator instance, with different per-method validator arguments
         import jsonschema
         from pjrpc.server.validators import jsonschema as vj
